@@ -917,11 +917,17 @@ func (x rangeValue) CompareSameType(op syntax.Token, y_ Value, depth int) (bool,
 }
 
 func (r rangeValue) Has(y Value) (bool, error) {
-	i, err := NumberToInt(y)
-	if err != nil {
-		return false, fmt.Errorf("'in <range>' requires integer as left operand, not %s", y.Type())
+	switch y := y.(type) {
+	case Int:
+		return r.contains(y), nil
+	case Float:
+		f := float64(y)
+		if !isFinite(f) || f != math.Trunc(f) {
+			return false, nil // not equal to any integer
+		}
+		return r.contains(finiteFloatToInt(y)), nil
 	}
-	return r.contains(i), nil
+	return false, fmt.Errorf("'in <range>' requires integer as left operand, not %s", y.Type())
 }
 
 func rangeEqual(x, y rangeValue) bool {
@@ -939,13 +945,20 @@ func rangeEqual(x, y rangeValue) bool {
 }
 
 func (r rangeValue) contains(x Int) bool {
-	x32, err := AsInt32(x)
-	if err != nil {
+	v, ok := x.Int64()
+	if !ok || r.len == 0 {
 		return false // out of range
 	}
-	delta := x32 - r.start
-	quo, rem := delta/r.step, delta%r.step
-	return rem == 0 && 0 <= quo && quo < r.len
+	lo, hi := r.start, r.start+(r.len-1)*r.step // first and last element
+	abs := uint64(r.step)
+	if r.step < 0 {
+		lo, hi = hi, lo
+		abs = -abs
+	}
+	if int(v) < lo || int(v) > hi {
+		return false
+	}
+	return (uint64(v)-uint64(lo))%abs == 0
 }
 
 type rangeIterator struct {
